@@ -11,6 +11,8 @@
 (*      file0           a regular file directly in S                       *)
 (*      lkout -> /base/out     lksib -> k2     ldang -> /base/none         *)
 (*   /base/out          outside: secret (file), od/ (directory)            *)
+(*   /base/S2           a sibling whose name extends the storage           *)
+(*                      directory's name: res/ with file p; S/lkpre -> it  *)
 (* Keys and filenames are strings made by concatenating tokens; "/" splits *)
 (* components, ABS_* tokens are absolute paths.                            *)
 (*                                                                         *)
@@ -29,17 +31,20 @@ OUT == <<"base", "out">>
 K1 == S \o <<"k1">>
 K2 == S \o <<"k2">>
 
-Dirs == {<<>>, <<"base">>, S, K1, K1 \o <<"sub">>, K2, OUT, OUT \o <<"od">>}
+SPRE == <<"base", "S2">>                      \* a sibling of the storage directory whose name has the storage directory's name as a prefix
+Dirs == {<<>>, <<"base">>, S, K1, K1 \o <<"sub">>, K2, OUT, OUT \o <<"od">>, SPRE, SPRE \o <<"res">>}
 Files == {K1 \o <<"f">>, K1 \o <<"f2">>, K1 \o <<"sub", "h">>, K2 \o <<"g">>, S \o <<"file0">>, S \o <<".gitignore">>,
-          OUT \o <<"secret">>}
-LinkTargets == [p \in {K1 \o <<"lnout">>, K1 \o <<"lnsib">>, K1 \o <<"lnk2">>, K1 \o <<"lndang">>, S \o <<"lkout">>, S \o <<"lksib">>, S \o <<"ldang">>} |->
+          OUT \o <<"secret">>, SPRE \o <<"res", "p">>}
+LinkTargets == [p \in {K1 \o <<"lnout">>, K1 \o <<"lnsib">>, K1 \o <<"lnk2">>, K1 \o <<"lndang">>, S \o <<"lkout">>, S \o <<"lksib">>, S \o <<"ldang">>,
+                       S \o <<"lkpre">>} |->
                   CASE p = K1 \o <<"lnout">> -> OUT \o <<"secret">>
                     [] p = K1 \o <<"lnsib">> -> K1 \o <<"f2">>
                     [] p = K1 \o <<"lnk2">> -> K2 \o <<"g">>
                     [] p = K1 \o <<"lndang">> -> OUT \o <<"ghost">>        \* dangling, pointing outside
                     [] p = S \o <<"lkout">> -> OUT
                     [] p = S \o <<"lksib">> -> K2
-                    [] p = S \o <<"ldang">> -> <<"base", "none">>]
+                    [] p = S \o <<"ldang">> -> <<"base", "none">>
+                    [] p = S \o <<"lkpre">> -> SPRE \o <<"res">>]
 IsLink(p) == p \in DOMAIN LinkTargets
 Exists(p) == p \in Dirs \cup Files          \* after resolution (a resolved path never ends in a link)
 Parent(p) == IF p = <<>> THEN <<>> ELSE SubSeq(p, 1, Len(p) - 1)
@@ -115,13 +120,13 @@ ConfinedStrict(touched, removing) ==      \* writes / reads: the child itself or
 
 -----------------------------------------------------------------------------
 (* ---- the bounded grammar of cases ---- *)
-KeyTokens == {"k1", "k2", "new", "lkout", "lksib", "ldang", "file0", ".", "..", "/", "\\", "k1.x", "", "ABS_OUT"}
+KeyTokens == {"k1", "k2", "new", "lkout", "lksib", "ldang", "lkpre", "file0", ".", "..", "/", "\\", "k1.x", "", "ABS_OUT"}
 FileTokens == {"f", "f2", "new", "lnout", "lnsib", "lnk2", "lndang", "sub", "h", "g", "k2", "..", ".", "/", "\\", "", "ABS_SECRET", "ABS_F"}
 Modes == {"r", "w", "a", "x", "rb", "wb", "r+", "w+"}
 CONSTANTS KeyLen, FileLen
 SeqsUpTo(T, n) == UNION {[1..k -> T] : k \in 0..n}
 Keys == SeqsUpTo(KeyTokens, KeyLen)
-FhKeys == {<<"k1">>, <<"new">>, <<"lksib">>, <<"file0">>, <<"lkout">>, <<"ldang">>, <<"k1.x">>, <<"..">>, <<>>, <<"k", "1">>}
+FhKeys == {<<"k1">>, <<"new">>, <<"lksib">>, <<"file0">>, <<"lkout">>, <<"ldang">>, <<"lkpre">>, <<"k1.x">>, <<"..">>, <<>>, <<"k", "1">>}
 FileNames == {f \in SeqsUpTo(FileTokens, FileLen) : \A i \in DOMAIN f : i > 1 => f[i] \notin DOMAIN Abs}   \* absolute paths only as prefix
 
 (* As a state space: one initial state per case <<op, key tokens, filename tokens, mode>>; the invariants say that what *)
